@@ -124,7 +124,7 @@ def cases(ctx):
                     yield {'kind': 'doc', 'lines': lines, 'form': form, 'as': 'str', 'it': 'iter', 'src': 'enum'}
     # (b) random documents
     r = ctx.rng('random')
-    for i in range(ctx.size(24000, 1200000)):
+    for i in range(ctx.size(24000, 2400000)):
         n = r.randint(1, 12)
         bodies = [rand_line(r) for _ in range(n)]
         form = r.choice(['term', 'term', 'lastno', 'nonl'])
